@@ -174,7 +174,11 @@ func c18ResolveRoles(p *Prog, tt *c18Terms, fn *ssa.Function, cfg *c18Cfg) *c18R
 				k := FieldID{key, f.Name()}.String()
 				ftypes[k] = f.Type()
 				fieldKeys = append(fieldKeys, k)
-				if n, ok := types.Unalias(f.Type()).(*types.Named); ok && stypes[namedKey(n)] {
+				nt := types.Unalias(f.Type())
+				if pt, ok := nt.Underlying().(*types.Pointer); ok {
+					nt = types.Unalias(pt.Elem()) // sub-struct held by pointer
+				}
+				if n, ok := nt.(*types.Named); ok && stypes[namedKey(n)] {
 					visit(n, depth+1)
 				}
 			}
